@@ -115,12 +115,12 @@ func TestSchedLedgerEnum(t *testing.T) {
 	if os.Getenv("VERIF_TIER") == "thorough" {
 		bound = 4
 	}
-	bad, unit := 0, 0
+	bad := 0
 	for ci, cs := range enumCases {
 		cs.Seed = uint64(ci)
 		for sub := 0; sub < 8; sub++ {
-			unit++
-			if unit%n != shard {
+			// the deepest subtree of a case is the one that starts without a pre-emption (sub 0): spread those over the shards
+			if (ci*9+sub)%n != shard {
 				continue
 			}
 			fixed := []int{sub & 1, (sub >> 1) & 1, (sub >> 2) & 1}
